@@ -49,7 +49,7 @@ def _key_gen(m):
 REQUIRED_VARIANTS = (
     ["ttc:%s" % l for l in ("after", "before", "split", "tail", "revdirs", "inter")]
     + ["ttc:%s" % h for h in ("v1", "v2null", "v2dsig")] + ["ttc:shared", "ttc:real", "sfnt:real", "sfnt:plain"]
-    + ["woff:%s" % v for v in ("z0", "zhdr", "zsplit", "none", "meta", "metapriv", "real")]
+    + ["woff:%s" % v for v in ("z0", "zhdr", "zsplit", "none", "meta", "metapriv", "priv", "real")]
 )
 
 
@@ -73,7 +73,7 @@ REQUIRED_CLASSES = (
     + ["ttc:lay:%s:hdr:%s" % (l, h) for l in ("after", "before", "split", "tail", "revdirs", "inter", "random")
        for h in ("v1", "v2null", "v2dsig")]
     + ["ttc:fields:real", "ttc:fields:zero", "ttc:shared-offset-table", "ttc:mixed-flavours"]
-    + ["ttc:members:%d" % n for n in (1, 2, 3, 4)] + ["woff:ext:0", "woff:ext:1", "woff:ext:2"]
+    + ["ttc:members:%d" % n for n in (1, 2, 3, 4)] + ["woff:ext:0", "woff:ext:1", "woff:ext:2", "woff:ext:3"]
 )
 
 SELF_REJECT = {("selftest-digest", "Query"), ("selftest-length", "Query"), ("selftest-beyond", "Provider"),
